@@ -783,15 +783,102 @@ def _verbosity(ctx, col):
                 text="accepted levels within table")
     sol = ctx.ct.get("Solver")
     owner, sfn = ctx.ct.require(sol, "set_verbosity")
-    st = [n for n in ast.walk(sfn) if isinstance(n, ast.Dict)]
-    oks = False
-    if st:  # one table, possibly mentioned more than once (membership test and lookup of a hoisted constant)
-        try:
-            oks = all(ast.literal_eval(d) == {v: k for k, v in LEVELS.items()} for d in st)
-        except Exception:
-            oks = False
+    # what integer does a level NAME become?  The string branch is executed abstractly for each documented name (and one
+    # unknown name): comparisons / membership tests of the upper-cased name against literals are decided, everything else
+    # must be an assignment of the level, a table lookup, or the ValueError.
+    param = [a.arg for a in sfn.args.args if a.arg != "self"][0]
+
+    def run_name(name):
+        subj = set()          # locals holding the upper-cased name
+        raw = {param}         # locals holding the name as given
+        level = {"v": None}
+
+        def is_subj(e):
+            if isinstance(e, ast.Name) and e.id in subj:
+                return True
+            return isinstance(e, ast.Call) and isinstance(e.func, ast.Attribute) and e.func.attr == "upper" and isinstance(e.func.value, ast.Name) \
+                and (e.func.value.id in raw or e.func.value.id in subj)
+
+        tables = {}
+
+        def table_of(e):
+            if isinstance(e, ast.Name) and e.id in tables:
+                return tables[e.id]
+            try:
+                v = ast.literal_eval(e)
+            except Exception:
+                return None
+            return v if isinstance(v, (dict, tuple, list, set)) else None
+
+        def keys_of(e):
+            v = table_of(e)
+            return list(v) if v is not None else None
+
+        def test(t):
+            if isinstance(t, ast.Call) and isinstance(t.func, ast.Name) and t.func.id == "isinstance" and len(t.args) == 2 \
+                    and isinstance(t.args[0], ast.Name) and t.args[0].id == param:
+                return "str" in ast.unparse(t.args[1])
+            if isinstance(t, ast.UnaryOp) and isinstance(t.op, ast.Not):
+                r = test(t.operand)
+                return None if r is None else not r
+            if isinstance(t, ast.Compare) and len(t.ops) == 1 and is_subj(t.left):
+                op, rhs = t.ops[0], t.comparators[0]
+                if isinstance(op, (ast.Eq, ast.NotEq)) and isinstance(rhs, ast.Constant):
+                    return (name == rhs.value) == isinstance(op, ast.Eq)
+                if isinstance(op, (ast.In, ast.NotIn)) and keys_of(rhs) is not None:
+                    return (name in keys_of(rhs)) == isinstance(op, ast.In)
+            return None
+
+        def block(stmts):
+            for st_ in stmts:
+                if isinstance(st_, ast.Expr):
+                    continue
+                if isinstance(st_, ast.Assign) and len(st_.targets) == 1 and isinstance(st_.targets[0], ast.Name):
+                    tgt, v = st_.targets[0].id, st_.value
+                    if is_subj(v):
+                        subj.add(tgt)
+                        raw.discard(tgt)
+                        continue
+                    if isinstance(v, ast.Name) and v.id in raw:
+                        raw.add(tgt)
+                        continue
+                    if isinstance(v, ast.Constant) and isinstance(v.value, int) and tgt == param:
+                        level["v"] = v.value
+                        subj.discard(tgt)
+                        continue
+                    if isinstance(v, ast.Subscript) and is_subj(v.slice) and keys_of(v.value) is not None and tgt == param:
+                        tab = table_of(v.value)
+                        level["v"] = tab.get(name, "KeyError") if isinstance(tab, dict) else "KeyError"
+                        subj.discard(tgt)
+                        continue
+                    if isinstance(v, (ast.Dict, ast.Tuple, ast.List, ast.Set)) and table_of(v) is not None:
+                        tables[tgt] = table_of(v)  # a local table
+                        continue
+                    if isinstance(v, ast.Constant):
+                        continue
+                    return "stop"
+                if isinstance(st_, ast.If):
+                    r = test(st_.test)
+                    if r is None:
+                        return "stop"  # leaves the part of the function that deals with names
+                    out = block(st_.body if r else st_.orelse)
+                    if out is not None:
+                        return out
+                    continue
+                if isinstance(st_, ast.Raise):
+                    return "raise:" + (ast.unparse(st_.exc.func) if isinstance(st_.exc, ast.Call) else "")
+                return "stop"
+            return None
+
+        out = block(sfn.body)
+        return out if isinstance(out, str) and out.startswith("raise") else level["v"]
+
+    got_map = {nm: run_name(nm) for nm in LEVELS.values()}
+    unknown = run_name("NO_SUCH_LEVEL")
+    oks = got_map == {v: k for k, v in LEVELS.items()} and unknown == "raise:ValueError"
     col.add("R20.9", "Solver.set_verbosity", owner.module.relpath, sfn.lineno, oks,
-            "string levels map to the inverse of the level table" if oks else "string-level table is not the inverse of the integer table",
+            "string levels map to the inverse of the level table; an unknown name raises ValueError" if oks else
+            f"level names are translated as {got_map} (unknown name: {unknown}); documented: {dict((v, k) for k, v in LEVELS.items())}, ValueError otherwise",
             text="string level table")
     calls = [c for c in calls_in(sfn) if isinstance(c.func, ast.Name) and c.func.id == "verbosity_to_loguru_level"]
     adds = [c for c in calls_in(sfn) if ast.unparse(c.func) == "logger.add"]
